@@ -91,6 +91,13 @@ fn main() {
             let seed: u64 = std::env::var("VERIF_SEED").ok().and_then(|s| s.trim().parse::<i64>().ok()).map(|v| v as u64).unwrap_or(1);
             std::process::exit(pfv::fuzzrun::run(def, runs, seed));
         }
+        "fuzz-decode" => {
+            // pfv fuzz-decode <ID> <artefact> <out.json>: the case a fuzzer input denotes, as a replay document
+            let raw = std::fs::read(&args[3]).unwrap();
+            let doc = pfv::fuzzglue::decode(&args[2], &raw);
+            std::fs::write(&args[4], serde_json::to_string(&doc).unwrap()).unwrap();
+            eprintln!("decoded {} input bytes into a document of {} bytes", raw.len(), doc.to_string().len());
+        }
         "digest" => {
             props::c14::digest_main(&args[2]);
         }
